@@ -286,3 +286,7 @@ package jobcontroller
 //@        && execution.sameStrs(result0.Finalizers, rj.Finalizers) && result0.DeletionTimestamp == rj.DeletionTimestamp
 //@   ensures [C11] cached-job-untouched: *rj == old(*rj)
 //@   ensures clock >= old(clock)
+
+// failed syncs of this reconciler are requeued without limit (C20)
+//@ func Reconciler.MaxRequeues
+//@   ensures [C20] unlimited-requeues: result == -1
